@@ -112,7 +112,14 @@ const (
 	// implemented, so SinglePipelineSimulate returns an error AFTER it started its workers
 	SpsBErr = "spsBerr"
 	SpsC    = "spsC" // MachineC.SinglePipelineSimulate: one of the two processors cannot execute its instruction
+	// MachineB.SinglePipelineSimulate with a per-opcode delay table (as cmd/simfinetune passes): inc takes 3 ticks,
+	// so the counting processor is inside a delay slot when the other one ends the run
+	SpsBDelay = "spsBdelay"
 )
+
+// delayTable is shared by all calls (simfinetune shares one table too); single-valued distributions keep the
+// simulation deterministic.
+var delayTable = &simbox.SimDelays{OpcodeDelays: map[string]simbox.DelayDistribution{"inc": {3: 1.0}}}
 
 // EntryPoint names the /repo function a call kind exercises (signature component).
 func EntryPoint(kind string) string {
@@ -123,6 +130,8 @@ func EntryPoint(kind string) string {
 		return "SinglePipelineSimulate(error return)"
 	case SpsC:
 		return "SinglePipelineSimulate(failing processor)"
+	case SpsBDelay:
+		return "SinglePipelineSimulate(opcode delays)"
 	case FitA, FitB:
 		return "Fitness_default"
 	case Basm:
@@ -139,7 +148,7 @@ func NewEnv() *Env { return &Env{A: MachineA(), B: MachineB(), C: MachineC()} }
 // Call performs one single-shot call and returns a rendering of its result.
 func (e *Env) Call(kind string) string {
 	switch kind {
-	case SpsA, SpsB, SpsBErr, SpsC:
+	case SpsA, SpsB, SpsBErr, SpsC, SpsBDelay:
 		bm := e.A
 		if kind != SpsA {
 			bm = e.B
@@ -155,7 +164,11 @@ func (e *Env) Call(kind string) string {
 		if kind == SpsBErr {
 			dataType = "signed"
 		}
-		out, err := bm.SinglePipelineSimulate(dataType, in, nil)
+		var sd *simbox.SimDelays
+		if kind == SpsBDelay {
+			sd = delayTable
+		}
+		out, err := bm.SinglePipelineSimulate(dataType, in, sd)
 		if err != nil {
 			return "error: " + err.Error()
 		}
@@ -303,7 +316,7 @@ func Enumerate(maxN int) []History {
 			add(History{Callers: [][]string{rep(FitB, n)}})
 		}
 	}
-	for _, s := range [][]string{{SpsA, FitA}, {FitA, SpsA}, {SpsA, Basm}, {Basm, SpsA}, {SpsBErr, SpsA}, {SpsA, SpsBErr}, {SpsC, SpsA}, {SpsA, SpsC}} {
+	for _, s := range [][]string{{SpsA, FitA}, {FitA, SpsA}, {SpsA, Basm}, {Basm, SpsA}, {SpsBErr, SpsA}, {SpsA, SpsBErr}, {SpsC, SpsA}, {SpsA, SpsC}, {SpsBDelay, SpsA}, {SpsA, SpsBDelay}} {
 		add(History{Callers: [][]string{s[:1]}})
 		add(History{Callers: [][]string{s}})
 	}
